@@ -215,6 +215,18 @@ func (t *taskState) reuseDecodeAlias(i int, po *prepOp, in []byte) {
 	} else {
 		t.probe("target_reused")
 	}
+	if po.op.Self && po.ti.T.Kind() == reflect.Struct {
+		// peeling nested frames: the bytes to decode are what the target's own byte-slice
+		// field holds (the same memory, not a copy)
+		for f := 0; f < po.ti.T.NumField(); f++ {
+			sf := po.ti.T.Field(f)
+			if sf.PkgPath == "" && sf.Type.Kind() == reflect.Slice && sf.Type.Elem().Kind() == reflect.Uint8 {
+				tgt.Elem().Field(f).SetBytes(in)
+				t.probe("fault:input_is_the_targets_own_byte_slice")
+				break
+			}
+		}
+	}
 	err := p.Unmarshal(in, tgt.Interface())
 	// drop the previous snapshot of this slot
 	live := t.live[:0]
